@@ -8,6 +8,7 @@ import (
 	"html"
 	"math"
 	"net/url"
+	"reflect"
 	"regexp"
 	"strings"
 	"time"
@@ -121,31 +122,26 @@ func AddStandardFilters(fd FilterDictionary) { //nolint: gocyclo
 			}
 			return a / b, nil
 		}
-		switch q := b.(type) {
-		case int:
-			return divInt(int64(a), int64(q))
-		case int8:
-			return divInt(int64(a), int64(q))
-		case int16:
-			return divInt(int64(a), int64(q))
-		case int32:
-			return divInt(int64(a), int64(q))
-		case int64:
-			return divInt(int64(a), q)
-		case uint:
-			return divInt(int64(a), int64(q))
-		case uint64:
-			return divInt(int64(a), int64(q))
-		case uint8:
-			return divInt(int64(a), int64(q))
-		case uint16:
-			return divInt(int64(a), int64(q))
-		case uint32:
-			return divInt(int64(a), int64(q))
-		case float32:
-			return divFloat(a, float64(q))
-		case float64:
-			return divFloat(a, q)
+		// the divisor decides: an integer of any width, signedness or named type divides as an integer, a float as a float
+		if n, ok := b.(json.Number); ok {
+			if i, err := n.Int64(); err == nil {
+				return divInt(int64(a), i)
+			}
+			if f, err := n.Float64(); err == nil {
+				return divFloat(a, f)
+			}
+		}
+		switch q := reflect.ValueOf(b); q.Kind() {
+		case reflect.Int, reflect.Int8, reflect.Int16, reflect.Int32, reflect.Int64:
+			return divInt(int64(a), q.Int())
+		case reflect.Uint, reflect.Uint8, reflect.Uint16, reflect.Uint32, reflect.Uint64, reflect.Uintptr:
+			if u := q.Uint(); u <= math.MaxInt64 {
+				return divInt(int64(a), int64(u))
+			}
+			// a divisor beyond the int64 range: the quotient is 0 or +-1
+			return int64(a / float64(q.Uint())), nil
+		case reflect.Float32, reflect.Float64:
+			return divFloat(a, q.Float())
 		default:
 			return nil, fmt.Errorf("invalid divisor: '%v'", b)
 		}
